@@ -799,6 +799,7 @@ struct MonC12 : Monitor {
     void on_api(World &w, int, const Op &op, const glue_view &, const glue_view &, int64_t) override {
         if (op.kind == OP_A_INACT) { traffic_s[0] = w.now / 1000; have_traffic[0] = true; }
         if (op.kind == OP_A_TADD) added_s[0] = w.now / 1000;
+        if (op.kind == OP_A_REINIT) { have_traffic[0] = false; added_s.erase(0); last.erase(0); /* a restarted daemon has no memory of its last Hello either */ }
     }
     void on_tick(World &w, TickRec &t) override {
         if (!w.plan.api_world && ft.count(t.node)) ft[t.node].tick(t.t / 1000);
@@ -873,6 +874,7 @@ struct MonC13 : Monitor {
         if (d.after.enum_state == 0) bm[d.node] = false;
     }
     void on_api(World &w, int, const Op &op, const glue_view &b, const glue_view &a, int64_t) override {
+        if (op.kind == OP_A_REINIT) { rm[0] = 0; bm[0] = false; last.have = false; return; }
         if (op.kind == OP_A_HEARD) { rm[0] += (uint64_t)op.a[0]; if (rm[0] >= 10) bm[0] = true; }
         else if (op.kind == OP_A_SETR) { rm[0] = (uint64_t)op.a[0]; if (rm[0] >= 10) bm[0] = true; }
         else if (op.kind == OP_A_BANDSET) bm[0] = op.a[1] != 0;
@@ -907,6 +909,7 @@ struct MonC14 : Monitor {
         for (int s = 1; s <= 2; s++) if (v.mapping_timeout[s] <= 0 || v.mapping_timeout[s] > 30) w.violate("C14", "timeout-range", fmt("active state %d has timeout %d s", s, v.mapping_timeout[s]));
     }
     void on_api(World &w, int, const Op &op, const glue_view &b, const glue_view &a, int64_t) override {
+        if (op.kind == OP_A_REINIT) { last_input_s[0] = w.now / 1000; inact_reset_s.erase(0); inact_dirty[0] = false; return; }
         if (op.kind == OP_A_INACT) { inact_reset_s[0] = w.now / 1000; inact_dirty[0] = false; }
         if ((op.kind == OP_A_TADD || op.kind == OP_A_MAP || op.kind == OP_A_CHARGE || op.kind == OP_A_SETMAP) && inact_reset_s.count(0) && w.now / 1000 - inact_reset_s[0] >= 29) inact_dirty[0] = true;
         if (op.kind == OP_A_SETMAP) last_input_s[0] = w.now / 1000 - (uint64_t)op.a[1];
@@ -990,6 +993,7 @@ struct MonC15 : Monitor {
     }
     void on_api(World &w, int, const Op &op, const glue_view &b, const glue_view &a, int64_t) override {
         if (op.kind == OP_A_SETSESS) last_input_s[0] = w.now / 1000 - (uint64_t)op.a[1];
+        if (op.kind == OP_A_REINIT) { last_input_s[0] = w.now / 1000; if (a.session_state != 1) w.violate("C15", "initial-state", fmt("a new session automaton starts in state %d, not Nascent", a.session_state)); return; }
         if (op.kind != OP_A_SESS) return;
         int e = (int)op.a[0];
         uint64_t el = w.now / 1000 - last_input_s[0];
@@ -1056,6 +1060,7 @@ struct MonC16 : Monitor {
         uint16_t kg = api_key_gen((int)op.a[0]);
         auto key = std::make_pair(km, kg);
         uint64_t now_s = w.now / 1000;
+        if (op.kind == OP_A_REINIT) { model.clear(); compare(w, a, "A_REINIT"); return; }
         switch (op.kind) {
         case OP_A_TADD: {
             auto it = model.find(key);
